@@ -986,6 +986,13 @@ impl Opcode for SLoad {
         // Get the key from the stack
         let key = vm.stack_handle()?.pop()?;
 
+        #[cfg(sle_verif)]
+        crate::verif::emit(crate::verif::Event::StorageAccess {
+            ip:    vm.instruction_pointer()?,
+            write: false,
+            key:   key.as_word().map(|w| w.bytes_be()),
+        });
+
         // Read from storage using that key
         let storage = vm.state()?.storage_mut();
         let result = storage.load(&key);
@@ -1044,6 +1051,13 @@ impl Opcode for SStore {
         // Load the inputs from the stack
         let key = stack.pop()?;
         let value = stack.pop()?;
+
+        #[cfg(sle_verif)]
+        crate::verif::emit(crate::verif::Event::StorageAccess {
+            ip:    vm.instruction_pointer()?,
+            write: true,
+            key:   key.as_word().map(|w| w.bytes_be()),
+        });
 
         // Store the value into storage
         vm.state()?.storage_mut().store(key, value);
